@@ -220,6 +220,14 @@ class Gen:
                         [f"let {v} = {s}", f"{v} += 100", f"echo ${v}"])
         if r < 0.16:
             v = rng.choice(NAMES[:9]) if rng.random() < 0.7 else self.fresh("v")
+            nb = [k for k, ty in self.builtins.items() if ty == "num"]
+            if nb and self.depth == 0 and not self.funcs and rng.random() < 0.2:
+                # a variable of the script's own with the name of a built-in: from here on the name means the variable
+                # (only in programs without functions: what a function body sees under that name is not modelled)
+                v = rng.choice(nb)
+                self.protected.discard(v)
+                self.shadowed_builtin = True
+                self.features.add("variable-named-like-a-builtin")
             if sc.lookup(v) not in (None, "num"):
                 v = self.fresh("v")
             if sc.lookup(v) == "num" and v not in sc.vars:
@@ -253,12 +261,23 @@ class Gen:
             if k < 0.4:
                 e, s = self.num_expr(sc)
                 return [C("SSet", v, None, e)], [f"{v} = {s}"]
-            op = rng.choice(["OAdd", "OSub", "OMul"])
-            sym = {"OAdd": "+=", "OSub": "-=", "OMul": "*="}[op]
+            op = rng.choice(["OAdd", "OSub", "OMul", "ODiv", "OMod"])
+            sym = {"OAdd": "+=", "OSub": "-=", "OMul": "*=", "ODiv": "/=", "OMod": "%="}[op]
             e, s = self.atom_num(sc) if rng.random() < 0.6 else self.num_expr(sc)
             if op == "OMul":
                 e, s = C("EInt", zc(2)), "2"
             self.features.add("compound-assign")
+            if op in ("ODiv", "OMod"):
+                # a literal divisor; half of the time the variable is driven below zero first (/= and %= truncate
+                # towards zero, as / and % do)
+                d = rng.randint(1, 5)
+                e, s = C("EInt", zc(d)), str(d)
+                self.features.add("compound-div-mod")
+                if rng.random() < 0.5:
+                    k = rng.randint(13, 40)
+                    self.features.add("compound-div-mod-negative")
+                    return ([C("SSet", v, C("Some", C("OSub")), C("EInt", zc(k))), C("SSet", v, C("Some", C(op)), e)],
+                            [f"{v} -= {k}", f"{v} {sym} {s}"])
             return [C("SSet", v, C("Some", C(op)), e)], [f"{v} {sym} {s}"]
         if r < 0.5:
             n = rng.randint(1, 3)
@@ -508,7 +527,7 @@ class Gen:
         terms, lines = [], []
         n = rng.randint(3, 14)
         for _ in range(n):
-            if rng.random() < 0.15 and len(self.funcs) < 3:
+            if rng.random() < 0.15 and len(self.funcs) < 3 and not getattr(self, "shadowed_builtin", False):
                 t, l = self.func_def(top)
             else:
                 t, l = self.stmt(top)
